@@ -41,59 +41,84 @@ def check_cpu_bin(prog, rep, m):
     out = rets[0] if rets else None
     rep.add('K1', f, entry, 'output initialised %r' % getattr(out, 'init', None), f.node.lineno,
             getattr(out, 'init', None) == 'nan', 'cells that get no class must be NaN: NaN-initialised output')
-    # the class index variable: initialised to -1 per cell, every other assignment under `if np.isfinite(val)`
-    inits = [n for n in f.own_nodes() if isinstance(n, ast.Assign) and isinstance(n.targets[0], ast.Name)
-             and const(n.value) == -1]
-    if len(inits) != 1:
-        rep.add('K1', f, entry, 'class index initialisation', f.node.lineno, None, 'expected one `val_bin = -1`')
+    # the per-cell decision, on the interpreted kernel: which label (if any) a cell receives for every ordering of its
+    # value against the first and the last break, finite or not.  The binary-search result is one opaque quantity.
+    from fractions import Fraction
+    from ..kutil import CannotEvaluate, eval_cond_full, evaluate, guard_atoms
+    from ..sym import Sym
+    cell_stores = [st for st in k.stores if st.arr is out and not isinstance(st.idx, str) and len(st.idx) == 2 and len(st.loops) == 2]
+    if not cell_stores:
+        rep.add('K1', f, entry, 'per-cell class store', f.node.lineno, None, 'no per-cell store found')
         return
-    vb = inits[0].targets[0].id
-    vals = [n for n in f.own_nodes() if isinstance(n, ast.Assign) and isinstance(n.targets[0], ast.Name) and
-            isinstance(n.value, ast.Subscript) and norm(n.value.value) == data]
-    valname = vals[0].targets[0].id if vals else None
-    others = [n for n in f.own_nodes() if isinstance(n, ast.Assign) and norm(n.targets[0]) == vb and n is not inits[0]]
-    for n in others:
-        guards = [norm(i.test) for i, inbody in enclosing_ifs(pm, n) if inbody]
-        ok = any(g.replace(' ', '') in ('np.isfinite(%s)' % valname, 'numpy.isfinite(%s)' % valname) for g in guards)
-        rep.add('K1', f, entry, '%s under %s' % (norm(n), guards[-1:] or None), n.lineno, ok,
-                'a class may be assigned only to finite values: the assignment must be dominated by np.isfinite(value)')
-    # first-bin / last-bin structure
-    firsts = [n for n in f.own_nodes() if isinstance(n, ast.If) and norm(n.test).replace(' ', '') == '%s<=%s[0]' % (valname, bins)]
-    ok = len(firsts) == 1 and any(norm(s) == '%s = 0' % vb for s in firsts[0].body)
-    rep.add('K4-bin', f, entry, 'if %s <= %s[0]: class 0' % (valname, bins), f.node.lineno, ok,
-            'values up to the first upper bound belong to bin 0')
-    lasts = []
-    if firsts and firsts[0].orelse and isinstance(firsts[0].orelse[0], ast.If):
-        lasts = [firsts[0].orelse[0]]
-    nb = None
-    for n in f.own_nodes():
-        if isinstance(n, ast.Assign) and norm(n.value) == 'len(%s)' % bins:
-            nb = n.targets[0].id
-    ok = bool(lasts) and nb is not None and norm(lasts[0].test).replace(' ', '') in (
-        '%s<=%s[%s-1]' % (valname, bins, nb), '%s<=%s[-1]' % (valname, bins)) and not lasts[0].orelse
-    rep.add('K4-bin', f, entry, 'elif %s <= %s[last]: search; else no class' % (valname, bins), f.node.lineno, ok,
-            'values above the last upper bound get no class (NaN); everything else is searched')
-    # the result store
-    stores = [n for n in f.own_nodes() if isinstance(n, ast.Assign) and isinstance(n.targets[0], ast.Subscript)
-              and norm(n.targets[0].value) == getattr(out, 'var', 'out') and isinstance(n.targets[0].slice, ast.Tuple)]
-    good = 0
-    for s in stores:
-        t = norm(s.value)
-        guards = [(norm(i.test).replace(' ', ''), inbody) for i, inbody in enclosing_ifs(pm, s)]
-        if t == '%s[%s]' % (newv, vb):
-            ok = any(g in ('%s>-1' % vb, '%s>=0' % vb) and inbody for g, inbody in guards)
-            good += 1 if ok else 0
-            rep.add('K1', f, entry, norm(s), s.lineno, ok, 'the class label is new_values[class index], stored only '
-                    'when a class was found')
-        elif t in ('np.nan', 'numpy.nan'):
-            rep.add('K1', f, entry, norm(s), s.lineno, True, trivial=True)
-        else:
-            rep.add('K1', f, entry, norm(s), s.lineno, False, 'unexpected value stored into the classification')
+    Y, X = cell_stores[0].idx
+    val = App('read', [data, Y, X])
+    atoms = set()
+    for st in cell_stores:
+        atoms |= guard_atoms(st.guards) | (walk_atoms(st.value) if isinstance(st.value, Rat) else set())
+    fin = [a for a in atoms if isinstance(a, App) and a.name == 'isfinite' and a.args[0] == Rat.atom(val)]
+    b0 = [a for a in atoms if isinstance(a, App) and a.name == 'read' and a.args[0] == bins and len(a.args) == 2 and a.args[1] == Rat.const(0)]
+    bl = [a for a in atoms if isinstance(a, App) and a.name == 'read' and a.args[0] == bins and len(a.args) == 2 and a.args[1] != Rat.const(0)]
+    search = [a for a in atoms if isinstance(a, Sym) and ('~wout' in a.name or '~w' in a.name)]
+    lab = [a for a in atoms if isinstance(a, App) and a.name == 'read' and a.args[0] == newv and len(a.args) == 2]
+    nb = [a for a in atoms if isinstance(a, App) and a.name in ('len', 'shape')]
+    if len(fin) != 1 or len(b0) != 1 or len(bl) != 1 or len(lab) != 1 or len(search) != 1:
+        rep.add('K1', f, entry, 'per-cell class decision', f.node.lineno, None if fin else False,
+                'expected one finite test, first/last break reads, one search result and one label read (finite tests %d, first %d, '
+                'last %d, labels %d, search results %d): without a finite test NaN/inf cells receive a class' % (
+                    len(fin), len(b0), len(bl), len(lab), len(search)))
+        return
+    # the last break read is bins[len(bins) - 1]
+    last_idx = bl[0].args[1]
+    okl = any((last_idx - Rat.atom(a) + Rat.const(1)) == Rat.const(0) for a in nb) or last_idx == Rat.const(-1)
+    res = []
+    try:
+        for isf in (1, 0):
+            for v in (5, 10, 15, 20, 25):
+                env = {fin[0]: Fraction(isf), val: Fraction(v), b0[0]: Fraction(10), bl[0]: Fraction(20), search[0]: Fraction(7)}
+                for a in nb:
+                    env[a] = Fraction(9)
+                got = 'none'
+                for st in cell_stores:
+                    if all(eval_cond_full(g, env) for g in st.guards):
+                        if isinstance(st.value, Rat) and st.value == Rat.atom(App('nan', [])):
+                            got = 'nan'
+                        elif isinstance(st.value, Rat) and st.value == Rat.atom(lab[0]):
+                            got = int(evaluate(lab[0].args[1], env))
+                        else:
+                            got = 'other:%s' % show(st.value, 40)
+                if not isf:
+                    want = ('nan', 'none')
+                elif v <= 10:
+                    want = (0,)
+                elif v <= 20:
+                    want = (7,)
+                else:
+                    want = ('nan', 'none')
+                res.append((isf, v, got, want))
+    except CannotEvaluate as e:
+        rep.add('K1', f, entry, 'per-cell class decision', f.node.lineno, None, 'not evaluable: %s' % e)
+        return
+    badfin = [(v, got) for isf, v, got, want in res if not isf and got not in want]
+    rep.add('K1', f, entry, 'non-finite cells receive no class (%d orderings)' % 5, f.node.lineno, not badfin,
+            'a class may be assigned only to finite values: NaN / inf cells must stay NaN whatever they compare to (got %s)' % badfin)
+    bad0 = [(v, got) for isf, v, got, want in res if isf and v <= 10 and got not in want]
+    rep.add('K4-bin', f, entry, 'value <= first break: class 0', f.node.lineno, not bad0,
+            'values up to the first upper bound belong to bin 0 (with breaks 10..20: got %s)' % bad0)
+    badm = [(v, got) for isf, v, got, want in res if isf and v > 10 and got not in want]
+    rep.add('K4-bin', f, entry, 'first break < value <= last break: searched; above the last break: no class', f.node.lineno,
+            not badm and okl, 'values above the last upper bound get no class (NaN); everything in between takes the index found by '
+            'the search, and the last break is bins[len(bins) - 1] (with breaks 10..20 and search result 7: got %s)' % badm)
+    rep.add('K1', f, entry, 'the label is new_values[class index]', f.node.lineno, True, trivial=True)
+    rep.add('K1', f, entry, 'unlabelled cells are NaN (initialisation or explicit store)', f.node.lineno,
+            getattr(out, 'init', None) == 'nan' or any(isinstance(st.value, Rat) and st.value == Rat.atom(App('nan', [])) and st.idx == 'all'
+                                                       for st in k.stores if st.arr is out), '')
     # comparisons use the raw value (no narrowing cast of the cell value)
     narrow = [n for n in f.own_nodes() if isinstance(n, ast.Call) and short(n) in ('float32', 'float16', 'int32', 'int', 'int64')
-              and n.args and valname and valname in norm(n.args[0])]
-    rep.add('K3', f, entry, 'cell value compared in its own precision', f.node.lineno, not narrow,
-            'the cell value must not be narrowed before it is compared with the breaks: %s' % [norm(n) for n in narrow])
+              and n.args and 'data[' in norm(n.args[0])]
+    casts = [a for a in atoms if isinstance(a, App) and a.name in ('float32', 'float16', 'int32', 'int64', 'int', 'astype')
+             and val in walk_atoms(a)]
+    rep.add('K3', f, entry, 'cell value compared in its own precision', f.node.lineno, not narrow and not casts,
+            'the cell value must not be narrowed before it is compared with the breaks: %s' % ([norm(n) for n in narrow] or casts))
 
 
 def check_binary(prog, rep, m):
@@ -394,7 +419,25 @@ def check_formulas(prog, rep, m):
     # inf -> nan before min/max
     infs = [s for s in g.own_nodes() if isinstance(s, ast.Assign) and isinstance(s.value, ast.Call) and short(s.value) == 'where']
     t = {norm(s.value).replace(' ', '') for s in infs}
-    ok = any('data==inf,nan,data' in x for x in t) and any('data==-inf,nan,data' in x for x in t)
+    names = {'inf': 'inf', 'np.inf': 'inf', 'numpy.inf': 'inf', 'cupy.inf': 'inf', 'nan': 'nan', 'np.nan': 'nan', 'numpy.nan': 'nan',
+             'cupy.nan': 'nan'}
+    both = plus = minus = False
+    for s_ in infs:
+        a_ = s_.value.args
+        if len(a_) != 3 or names.get(norm(a_[1])) != 'nan' or norm(a_[2]) != 'data':
+            continue
+        c0 = norm(a_[0]).replace(' ', '')
+        if c0 in ('module.isinf(data)', 'np.isinf(data)', '~module.isfinite(data)&~module.isnan(data)'):
+            both = True
+        for nm, kind in names.items():
+            if kind == 'inf':
+                plus = plus or c0 in ('data==%s' % nm, '%s==data' % nm)
+                minus = minus or c0 in ('data==-%s' % nm, '-%s==data' % nm)
+    # the masked array must be the one whose nanmin / nanmax are taken (the statements come before them)
+    mm = [s_ for s_ in g.own_nodes() if isinstance(s_, ast.Assign) and isinstance(s_.value, ast.Call) and short(s_.value) in ('nanmax', 'nanmin')]
+    before = bool(infs) and bool(mm) and max(x.lineno for x in infs) < min(x.lineno for x in mm) and \
+        all(norm(x.value.args[0]) == 'data' for x in mm)
+    ok = (both or (plus and minus)) and before
     rep.add('K4', g, 'equal_interval', 'infinities removed before nanmin / nanmax', g.node.lineno, ok,
             '+inf and -inf must not take part in the [min, max] range')
     # quantile
@@ -421,7 +464,12 @@ def check_formulas(prog, rep, m):
             'the k percentile levels must be 100*i/k, i = 1..k, the last one capped at 100 (w ok: %s, levels ok: %s, cap: %s)'
             % (okw, okp, cap))
     pc = [c for c in calls(q.node) if short(c) == 'percentile']
-    ok = len(pc) == 1 and norm(pc[0].args[0]).replace(' ', '') == 'data[module.isfinite(data)]' and norm(pc[0].args[1]) == 'p'
+    a0 = pc[0].args[0] if len(pc) == 1 and pc[0].args else None
+    if isinstance(a0, ast.Name):
+        loc = [v for v in q.local_assigns().get(a0.id, []) if isinstance(v, ast.AST)]
+        a0 = loc[0] if len(loc) == 1 else a0
+    ok = len(pc) == 1 and a0 is not None and norm(a0).replace(' ', '') in ('data[module.isfinite(data)]', 'data[np.isfinite(data)]') and \
+        norm(pc[0].args[1]) == 'p'
     rep.add('K4', q, 'quantile', norm(pc[0])[:100] if pc else 'percentile call', q.node.lineno, ok,
             'percentiles are taken over the finite cells only')
     un = [c for c in calls(q.node) if short(c) == 'unique']
